@@ -3,11 +3,11 @@ package main
 // C07 — Service: deposits and fees are conserved across escrow, providers and consumers.
 
 import (
-	"os"
 	"fmt"
 	"go/token"
 	"go/types"
 	"golang.org/x/tools/go/ssa"
+	"os"
 	"strings"
 )
 
